@@ -219,7 +219,7 @@ cases = list(corpus)
 if ck.replay:
     cases = [json.load(open(ck.replay))["case"]]
 else:
-    nblocks, nrand, nbig, nsw = (260, 6000, 1500, 4000) if ck.thorough() else (54, 2000, 240, 1600)
+    nblocks, nrand, nbig, nsw = (260, 6000, 1500, 4000) if ck.thorough() else (48, 1700, 200, 1400)
     for _ in range(nblocks): gen_small_block(rng, cases)
     for _ in range(nrand): gen_random(rng, cases, False)
     for _ in range(nbig): gen_random(rng, cases, True)
@@ -269,13 +269,14 @@ API_SURFACE = [
  {"api": "DiffType = difference_type of the element iterators: std::ptrdiff_t", "called": True, "by": "all profiles"},
  {"api": "DiffType other than std::ptrdiff_t (element iterator class with difference_type int)", "called": False, "by": "does not compile, with or without a matching pair iterator: the per-thread call hands std::vector<pair>::iterator to multiway_merge_4_combined, which mixes both difference_types in std::min(size, total_size - overhang) (multiway_merge.hpp:677); compile-time limitation, nothing to run"},
  {"api": "comparator: key-only less (function object) | key-only greater on descending inputs | stateful non-default-constructible counting comparator | defaulted std::less<T>", "called": True, "by": "profiles 0,1,5 | 2 | 3 | 4"},
- {"api": "element type: 12-byte trivially copyable record (key, sequence, position; copy-based loser trees) | 40-byte record > 2*sizeof(size_t) (pointer-based loser trees) that owns its key in a heap cell and whose destructor overwrites the key with INT_MIN and frees it (a comparison with a dead element is an ASan heap-use-after-free); both compared by key only, so that stability and element identity are observable", "called": True, "by": "two binaries of the same harness (default | -DC07_FAT), all profiles; about a quarter of the generated cases and half of the algorithm sweep use the fat element"},
+ {"api": "element type: 12-byte trivially copyable record (key, sequence, position; copy-based loser trees) | 40-byte record > 2*sizeof(size_t) (pointer-based loser trees) that owns its key in a heap cell and whose destructor overwrites the key with INT_MIN and frees it (a comparison with a dead element is an ASan heap-use-after-free); its move constructor / move assignment leave the source in an observable moved-from state (key INT_MIN, sequence tag MOVED); both compared by key only, so that stability and element identity are observable", "called": True, "by": "two binaries of the same harness (default | -DC07_FAT), all profiles; about a quarter of the generated cases and half of the algorithm sweep use the fat element"},
  {"api": "memory regime of the inputs: *_sentinels entry points: every sequence in its own heap block followed by its sentinel | other entry points, NO sentinel: every sequence in its own exactly sized heap block (overrun = ASan heap-buffer-overflow) | all sequences adjacent in one exactly sized buffer (overrun reads the next sequence: wrong output)", "called": True, "by": "entry >= 2 | layout 0 | layout 1 (drawn per case)"},
  {"api": "every MultiwayMergeAlgorithm value (MWMA_LOSER_TREE, _COMBINED, _SENTINEL, MWMA_BUBBLE) x k = 2..9 non-empty sequences x non-sentinel entry points (parallel_multiway_merge, stable_parallel_multiway_merge) x both memory regimes x both element kinds, thread counts 1,2,3,5 leaving no chunk empty (unguarded phases run)", "called": True, "by": "gen_algo_sweep on every run (256 cases); counted per (mwma, k) in input_distribution"},
  {"api": "tlx::parallel_mergesort / stable_parallel_mergesort (comp, num_threads 1..9,13, MWMSA_SAMPLING | MWMSA_EXACT; no merge-algorithm parameter exists: the per-thread merges use MWMA_ALGORITHM_DEFAULT) as a second consumer of the same merge kernels, both element kinds", "called": True, "by": "gen_ms ('ms' lines), judged against the (stable) sort by the Python reference; C06 owns the property"},
  {"api": "OpenMP variant of parallel_multiway_merge_base (#if defined(_OPENMP))", "called": False, "by": "the check builds without -fopenmp, as the repo's default build does; the std::thread variant is the one exercised (the two bodies are textually the same computation)"},
  {"api": "HUGE TOTALS: k = 1..4 sequences of uint8_t in sparse MAP_NORESERVE mappings whose lengths sum to 2^31-1, 2^31, 2^31+r, 2^32-1, 2^32, 2^32+size, 2.8e9, 2^32+2^31+7 (one huge + short/empty ones | equal parts | two huge), std::greater on descending data, prefix of size 0..2000, 1..4 threads, all four entry points, both splitting requests (MWMSA_SAMPLING is served by the exact splitter for a prefix), all merge algorithms", "called": True, "by": "gen_huge ('huge' lines, 12-byte binary only); judged by the Python reference and against the Coq model run on the sequences truncated to their first `size` elements (an element beyond position `size` of a sequence cannot be among the first `size` merged elements; the truncation argument itself is not a Coq theorem)"},
  {"api": "ThreadSanitizer build (-fsanitize=thread -DNDEBUG) of the same harness, every tier: k = 1..6 non-empty sequences x every MultiwayMergeAlgorithm x both splitting requests x stable/unstable (sentinel and non-sentinel entry points) x three thread counts from 2..8; thorough tier additionally the first 6000 generated parallel cases", "called": True, "by": "gen_tsan_sweep (264..288 cases); every TSan report is a VIOLATION with the running case as replay"},
+ {"api": "inputs are not modified: after every call the not yet consumed part of every input sequence is compared with what the case stored (w=inputmod@seq:index), and no output element may be in a moved-from state (w=movedout@pos); observable through the fat element's poisoning move operations, exercised through MWMSA_SAMPLING with size = total on all four entry points and all profiles", "called": True, "by": "every case of both binaries"},
  {"api": "regimes: no sequences | all sequences empty | empty sequences between non-empty ones | size = 0 | size < p | p > total | one long among short sequences | heavy duplicates across split points (1..3 distinct keys)", "called": True, "by": "corpus + generator shapes 0-3"},
 ]
 
